@@ -30,9 +30,9 @@ from ..common import dumps, MachineryError
 from .. import c17_ufunc as U
 
 # layer-C flags: '0' mirrors the current tree (open defect), '1' the repaired form
-FIXED_NEGAXIS = '0'     # DiscretizedSpaceElement reduce with negative axis
-FIXED_ZERODIM = '0'     # writable_array write-back into 0-d out
-FIXED_OUTERBOOL = '0'   # discretised outer with non-floating result dtype
+FIXED_NEGAXIS = '1'     # DiscretizedSpaceElement reduce with negative axis
+FIXED_ZERODIM = '1'     # writable_array write-back into 0-d out
+FIXED_OUTERBOOL = '1'   # discretised outer with non-floating result dtype
 FIXED_POWER = '0'       # ProductSpaceElement has no __array_ufunc__
 
 
@@ -359,7 +359,7 @@ def run(ctx):
 
     # ---- 5. random driver: concretisation only (ufunc, dtype, variant, complex operands) ----
     rnd = random.Random(ctx.seed * 7919 + 17)
-    nrand = 2500 if quick else 20000
+    nrand = 1500 if quick else 20000
     done = 0
     tries = 0
     while done < nrand and tries < nrand * 5:
